@@ -107,6 +107,12 @@ func runC01(c *ctx) {
 	r := c.res.Rng
 	c.res.Rule = "FROST / FROST-Taproot: every signer subset |S|>t for n<=4 (sampled for n=5); Doerner; CMP sign and presign+online for n=3 non-prefix subsets; " +
 		"digest lengths 1..80; schedules fifo/lifo/latest-first/random; FROST and Doerner signing sessions running concurrently in one process (private key-material objects per goroutine); each signature judged by the Coq reference verifier; non-trivial = all; distinct by (protocol, signers, message, seed, policy)"
+	c.res.Rule += "; key material chains keygen -> (refresh | restore)* with a signing session after every step (FROST and FROST-Taproot n=2..4, Doerner two refreshes, " +
+		"CMP one refresh then sign and presign+online; thorough: more shapes, CMP refresh twice + restore): every all-honest session completes and every signature is valid " +
+		"under the group key recorded when key generation ended"
+	if c.replay != "" && c.c01Replay() {
+		return
+	}
 	pols := []string{"fifo", "lifo", "latest-first", "random"}
 	k := 0
 	maxN := 4
@@ -183,6 +189,8 @@ func runC01(c *ctx) {
 	}
 	// ---- concurrent sessions in one process ----
 	c.c01Concurrent()
+	// ---- refreshed / restored key material (FROST, FROST-Taproot, Doerner; CMP below) ----
+	c.c01ChainsLight()
 	// ---- CMP ----
 	usePrimeCache()
 	ids := idsOf("alice", "bob", "carl")
@@ -222,6 +230,14 @@ func runC01(c *ctx) {
 		sp := specCMPPresignOnline(cfgs, pres, S, msg, []byte("on"))
 		s := runToEnd(sp, c.res.Seed, "lifo")
 		c.checkSignSession("C01", sp, s, pub, msg, c.res.Seed, "lifo", "presignature/n=3/t=1")
+	}
+	// ---- refreshed / restored key material ----
+	{
+		var mat []interface{}
+		for _, id := range ids {
+			mat = append(mat, cfgs[id])
+		}
+		c.c01ChainCMP(mat, ids)
 	}
 	_ = bytes.Equal
 	_ = cmp.Keygen
